@@ -22,12 +22,13 @@ CHECKS = {
         "model agrees on a stratified sample.",
    ref="DESIGN.md section 3 C02", technique="Coq structural theorems + exhaustive bit-flip evaluation on the crate + model correspondence"),
  "C03": dict(
-   text="Coq theorems (all byte strings, messages, keys): acceptance implies exact length, hint section accepted by the strict decoder (= FIPS 204 HintBitUnpack, canonical, weight <= omega), "
-        "||z|| < gamma1-beta, whole-challenge equality; malformed hints, large z or any challenge mismatch force rejection; API wrappers decide as the core on the framed message. The equality of "
-        "the recomputed challenge pipeline with the ring expression UseHint(h, Az - c t1 2^d) is not yet a theorem: decided by executing crate = independent Verify_internal = model on genuine "
-        "signatures, another signer's signatures, every hint-section defect on valid signatures (hash-consistent near-misses), signatures from a signer that skips the z test incl. z exactly at "
-        "+-(gamma1-beta), boundary accepts, random bytes.",
-   ref="DESIGN.md section 3 C03", technique="Coq proofs (strictness, gates) + differential execution with crafted hash-consistent near-misses"),
+   text="Coq theorem (six sets, ANY byte string as signature, any message, any key of the right length): whenever verification returns, it returns exactly the decision of the "
+        "specification's Verify (Dilithium 3.1 / FIPS 204 Alg. 8, transcribed in PVerifySpec.v: pkDecode, sigDecode with BitUnpack and HintBitUnpack, the z-norm bound, ExpandA, mu, "
+        "SampleInBall, w' characterised by NTT(w') = A^ o NTT(z) - NTT(c) o NTT(t1 2^d), UseHint, w1Encode, challenge comparison), and that decision is unique; accepts every "
+        "spec-valid signature; API entry points = specification on the framed message; plus the explicit strictness lemmas. Not provable: termination of the two rejection samplers. "
+        "Tied to the code by executing crate = independent Verify_internal = model on genuine signatures, another signer's signatures, every hint-section defect (hash-consistent near-misses), "
+        "signatures from a signer skipping the z test incl. z exactly at +-(gamma1-beta), boundary accepts, random bytes.",
+   ref="DESIGN.md section 3 C03 and 12.2", technique="Coq proof (model Verify = specification) + differential execution with crafted hash-consistent near-misses"),
  "C04": dict(
    text="Coq theorem (six sets, EVERY 32-byte seed): whenever key generation returns, it returns byte for byte the key pair of the specification's KeyGen (Dilithium 3.1 / FIPS 204 "
         "KeyGen_internal incl. the k,l domain separation; transcribed in PKeygen.v with NTT as evaluation at the roots and t characterised by NTT(t - s2) = A^ o NTT(s1)), with the standard "
@@ -54,11 +55,12 @@ CHECKS = {
         "= core signature over the Python-computed M'.",
    ref="DESIGN.md section 3 C07", technique="Coq proofs (framing, injectivity, gates) + cross-verification of all descriptor pairs on the crate"),
  "C08": dict(
-   text="Coq theorem: for the six sets, ANY byte string as signature (any length), any message, any context, any public key of the right length, verification never panics (no overflow, no "
-        "out-of-bounds) and returns a boolean — incl. the no-overflow chain through the NTT pipeline with ranges at every step and totality of the hint decoder on adversarial counters; API "
-        "verifiers likewise; key generation from any seed never panics. Signing no-overflow is not yet a theorem: both builds (overflow-checked and release) are executed on adversarial signatures (structured counters, "
-        "extreme z/t1/pk), sampler refill paths through the XOF tap, and 360 000 honest key generations per run.",
-   ref="DESIGN.md section 3 C08", technique="Coq proof (verify total) + checked-vs-release differential execution + volume"),
+   text="Coq theorems (six sets): verification never panics for ANY byte string as signature (any length), message, context and key of the right length, and returns a boolean; key "
+        "generation from any 32-byte seed never panics; signing with ANY secret-key bytes of the right length on any message in any mode never panics — every checked +,-,*, index, slice "
+        "of the code is a checked operation of the model, ranges are tracked through all NTT-domain pipelines (largest product 81 q^2 < 2^31 q), the hint decoder is total on adversarial "
+        "counters. Hence checked and unchecked builds compute the same values (the only edge, the u16 counter L*nonce after 2^16/L rejections, is outside the attempt budget). Tied to the "
+        "code by executing both builds on adversarial signatures (structured counters, extreme z/t1/pk), sampler refill paths through the XOF tap, 360 000 honest key generations per run.",
+   ref="DESIGN.md section 3 C08 and 12.2", technique="Coq proof (no-panic of verify, keygen, sign) + checked-vs-release differential execution + volume"),
  "C09": dict(
    text="Coq theorems (the part that is logic): which operations draw, exactly how many bytes (0 / 32 / 64), in call order for any history, and that outputs are a function of the drawn bytes "
         "used only as seed / rnd / rho'. Freshness from an OS-seeded CSPRNG and distinctness are runtime facts outside any model: the RNG tap records requests in both builds (log must be "
